@@ -72,7 +72,7 @@ FUNCTIONS = [
         expr_rules=[(r'^(\w+)\.cost\(\)$', r'cost_of \1')],
     ),
     dict(
-        name='validate_match', cxx='sequence_type::validate_match', file=SEQ,
+        name='validate_match', cxx='sequence_type::validate_match', file=SEQ, imports=['Cost'],
         header=r'sequence_type::validate_match\(\s*severity s,[^)]*\)\s*const',
         lean_sig='{α : Type} [DecidableEq α] (is_satisfied is_optional : α → Bool) (matcher : α) (matchers : List α) : Option (List (Tok α))',
         vars={'matchers': 'matchers', 'matcher': 'matcher'},
